@@ -292,6 +292,10 @@ func checkC11(c *Ctx) {
 	checkPublisherTable(c)
 	checkMonitorTable(c)
 	checkControllerTable(c)
+	// the cascade reaches typed descendants: a typed subscription's loop may block on nothing but its
+	// parent's event stream (and its own consumer-facing hand-over), so it ends when the parent's ends —
+	// a wait on anything else (the parent's Ready(), a timer, a lock) outlives a parent that shut down first
+	checkBlockingInventory(c, typedRelsQuick(c), findRunFuncs(c.P, rootRels), 2*len(typedRelsQuick(c)))
 }
 
 func typedRelsQuick(c *Ctx) []string {
